@@ -103,4 +103,11 @@ CHECKS = {
         "what was embedded or raises ValueError; verify(None) costs exactly one dummy verification.",
    note="Trusted: z3; str/bytes isinstance and the marker set in passlib.handlers.misc extended to symbolic text. One open known "
         "finding (mysql41 '*' prefix vs unix_disabled marker) is listed in known_findings.txt."),
+ "C10": dict(engine="E1-zshadow", category="fault_enumeration", design_ref="DESIGN.md §4 C10",
+   technique="symbolic fault position: path exploration of the real load/update/copy with a scheme whose customisation raises at a solver-chosen call index; z3 term-wise comparison of exported configurations",
+   text="The index of the failing customisation call and the exception kind are symbolic, so z3 enumerates exactly the feasible fault "
+        "points of the real load/update/copy; after each failing path 15 observables (exports, scheme lists, defaults per category, "
+        "record/identify bindings, decisions on probe hashes) equal their values before the attempt. 18 kinds of invalid change at every "
+        "position; dict round trips with symbolic integer options; config-key render/parse inverse over symbolic names.",
+   note="Trusted: z3; the scratch failing scheme. INI text and float vary_rounds only at enumerated values. Outside: ConfigParser internals."),
 }
